@@ -40,14 +40,16 @@ attributes:
   column is an ordinary column of `Fail`'s schema, index `X.tagCol c`);  `col._default` is `NoDefault` iff
   `X.nodefault a j` (a faithful instance has `X.nodefault a (X.tagCol a) = false`: `childName` has `default=None`, so
   its name is never read), `col.name` = `.name a j`, `col.foreignName` = `None`;
-  the theorems assume `Required`: a column without default of a NON-ROOT level has its keyword (no "missing keyword"
+  the theorems assume `Required` (`Lemmas/FailInhXc.lean`): a column without default of a NON-ROOT level has its
+  keyword (no "missing keyword"
   `TypeError` at child levels — `Fail.createInh` has none);
 * `self._connection` : `.conn 0`; `conn.autoCommit` : `True`; `isinstance(conn, dbconnection.Transaction)` : `False` —
   the `Fail` model has NO transactions (C07/C08 cover them), so the clean-up branch is always taken for a child;
 * `self._parent` : the world's `par c`; assigning it changes nothing in `Fail.St`; `self._parent.id` : the id of the
   instance the parent constructor returned;
 * `hasattr(<class P>, <name a j>)` : `a ∈ ancs sch X.depth P` (`P` and its at most `X.depth - 1` ancestors; the
-  theorems assume the chain is not longer than `X.depth`).
+  theorems assume the chain is not longer than `X.depth`);
+* `sqlbuilder.NoDefault` : `.ref 0 0`; no `while` loop occurs in `_create` (`fuel := 0`).
 calls:
 * `super(InheritableSQLObject, self)._create(id, **kw)` (= `SQLObject._create`), `kw` a dict value:
   - `id` is `None` (a root): `Fail.run sch inj (Fail.createProg sch c none false KW [] fun _ => .done)`;
